@@ -56,6 +56,9 @@ type Ctx struct {
 	Extra       map[string]any
 	models      map[string]any
 	floorFails  []string
+	// reviewed functions that the current exploration follows in place as well (a rule
+	// about a pipeline of reviewed functions explores it as one unit)
+	alsoInline map[string]bool
 }
 
 func NewCtx(p *core.Prog, prop, tier string) *Ctx {
